@@ -8,4 +8,6 @@ require (
 	pgregory.net/rapid v1.3.0
 )
 
+require github.com/HdrHistogram/hdrhistogram-go v1.1.2 // indirect
+
 replace github.com/vulcand/oxy/v2 => /repo
